@@ -9,7 +9,7 @@ func init() {
 			"that crossing a tick adds the signed net liquidity of exactly that tick (negated for zero-for-one) and moves the current tick to next−1 / next; that ticks are removed only when reported empty and the pool is uninitialised only when no position remains; and that the low-level writers of ticks, positions and pool price have only the listed callers.",
 		NotCovered:  []string{"the invariant itself over histories", "price/tick agreement as numbers (C14)"},
 		Assumptions: []string{"KV store semantics"},
-		MinObl:      51,
+		MinObl:      56,
 		Run:         runC07,
 	})
 }
@@ -77,6 +77,14 @@ func runC07(c *rules.Ctx) {
 	c.FailsWhen(K+"uninitializePool", "cl.Keeper.HasAnyPositionForPool(_, ctx, poolId)#0 | cl.Keeper.HasAnyPositionForPool(...)#0", "a pool with positions is never uninitialised", rules.GuardOpt{})
 	// ---- writers
 	c.WhoMayCall(K+"SetTickInfo", []string{"cl.Keeper.initOrUpdateTick", "cl.Keeper.crossTick", "cl.Keeper.InitGenesis", "cl.Keeper.MigrateSpreadFactorAccumulatorToScalingFactor", "cl.Keeper.MigrateIncentivesAccumulatorToScalingFactor", "cl.Keeper.initOrUpdateTickUptimeTrackers"}, "tick records are written only by the listed functions")
+	c.ReachedWhen(W, "cl.Keeper.RemoveTickInfo[3=has(cl.Keeper.GetPosition(k,ctx,positionId)#0.LowerTick)]", "cl.Keeper.UpdatePosition(...)#0.LowerTickIsEmpty", "an emptied lower tick is always removed (whatever happened to the upper one)")
+	c.ReachedWhen(W, "cl.Keeper.RemoveTickInfo[3=has(cl.Keeper.GetPosition(k,ctx,positionId)#0.UpperTick)]", "cl.Keeper.UpdatePosition(...)#0.UpperTickIsEmpty", "an emptied upper tick is always removed (whatever happened to the lower one)")
+	// ---- first position: the pool's tick is the price's tick rounded *down* to the spacing (Euclidean, also below zero)
+	const IP = K + "initializeInitialPositionForPool"
+	c.Let("SQP0", "osmomath.BigDecFromDecMut(osmomath.MonotonicSqrtMut(sdkmath.LegacyDec.Quo(sdkmath.Int.ToLegacyDec(amount1Desired), sdkmath.Int.ToLegacyDec(amount0Desired)))#0)")
+	c.CallArg(IP, "cltypes.ConcentratedPoolExtension.SetCurrentSqrtPrice", 1, "{SQP0}", "the initial sqrt price is sqrt(amount1/amount0)")
+	c.CallArg(IP, "cltypes.ConcentratedPoolExtension.SetCurrentTick", 1, "clmath.SqrtPriceToTickRoundDownSpacing({SQP0}, cltypes.ConcentratedPoolExtension.GetTickSpacing(pool))#0", "the initial tick is that price's tick rounded down to the pool's spacing by the shared helper (so the range containing the price is the active one)")
+	c.HasCall(IP, "cl.Keeper.setPool", []string{"k", "ctx", "pool"}, true, "the initial price and tick are persisted", "")
 	c.WhoMayCall(K+"RemoveTickInfo", []string{"cl.Keeper.WithdrawPosition"}, "ticks are removed only by withdrawal")
 	c.WhoMayCall(K+"deletePosition", []string{"cl.Keeper.WithdrawPosition", "cl.Keeper.transferPositions"}, "positions are deleted only by withdrawal and transfer")
 }
